@@ -1,9 +1,12 @@
 /-
   C04 — each zone partitions the timeline into maximal offset intervals.
   Theorems about the model of the precalculated part (binary search over stored periods), of fixed zones, and
-  of the seam between the stored periods and the recurring tail.  The recurring tail itself is decided by
-  executing the model over all years (see harness/c04.py); the statement that is not proved is kept below as
-  `tailPartitionStatement`.
+  of the seam between the stored periods and the recurring tail.  The recurring tail is treated in C04Tail /
+  C04TailRules (years 1901…9994) and C04TailEnd (`tail_seq`, `tail_partition_end`: through year 9999 and the
+  final interval ending at the after-max sentinel), the whole zone including the seam in C04Zone
+  (`zoneOK_sound`, `zoneOK_gives_spec`), walks and maximality in C04Walk.  `tailPartitionStatement` below (the
+  tail map ALONE on every valid instant, i.e. also before its first covered transition of 1901, where
+  `Precalc.get` never consults it) stays unproved and is not needed.
 -/
 import PyodaModel.ZoneOps
 import PyodaProofs.Basic
@@ -244,7 +247,8 @@ theorem altmap_get_shape (m : AltMap) (t : Int) (z : ZI) (h : m.get t = .ok z) :
           dsimp only
           exact ⟨by omega, by omega, by omega, rfl⟩
 
-/-- the statement for the recurring tail that is *not* proved here (decided by execution over all years) -/
+/-- the statement for the tail map alone on EVERY valid instant; proved from the first covered transition on
+    (`C04.tail_partition_end`), not for the years before 1901, which `Precalc.get` never asks the tail map about -/
 def tailPartitionStatement (m : AltMap) : Prop :=
   ∀ t, MINI ≤ t → t ≤ MAXI → ∃ z, m.get t = .ok z ∧ z.s ≤ t ∧ t < z.e ∧
     (∀ u, MINI ≤ u → u ≤ MAXI → z.s ≤ u → u < z.e → m.get u = .ok z)
